@@ -61,6 +61,9 @@ func c08Body(r *Run) {
 		h.pub = pubs[t.Int(nPubs)]
 		h.subTopic = fmt.Sprintf("in%d", t.Int(nTopics))
 		h.pubTopic = fmt.Sprintf("out%d", t.Int(nTopics))
+		if t.Chance(1, 6) {
+			h.pubTopic = "" // a publisher that routes by metadata does not need a topic
+		}
 		h.noPub = t.Chance(1, 5)
 		if h.noPub {
 			h.addOut = t.Chance(1, 2)
